@@ -72,4 +72,4 @@ impl MetaMap {
 
 #[cfg(kani)]
 #[path = "/verif/units/kani/bitbox_meta_map.rs"]
-mod verif_kani;
+pub(crate) mod verif_kani;
